@@ -233,6 +233,19 @@ def gen(rng, prop=None):
             amt = ramt(rng)
             rows.append(["IN", 0, ub, ob, "BUY", ai, rprice(rng), amt, None, None, None])
             rows.append(["OUT", 0, uo, oo, "SELL", ai, rprice(rng), amt if rng.random() < 0.7 else max(1, amt // 2), 0, None, None, None])
+    if prop == "C08" and rng.random() < 0.2:
+        # creeping overdraft: an account is refilled and emptied several times, each sale taking a few units of the 11th decimal more than
+        # it holds — every single shortfall is inside the tolerance, their sum is not (the running balance is what is tested, every time)
+        zero = [a_ for a_ in range(len(ACCTS)) if bal[a_] == 0]
+        ai = rng.choice(zero) if zero else rng.randrange(len(ACCTS))
+        other = (ai + 1) % len(ACCTS)
+        t = max([x[2] for x in rows] or [0]) + 86400 * 10**6
+        rows.append(["IN", 0, t, 0, "BUY", other, rprice(rng), 10**6 * U, None, None, None])     # coins elsewhere, so that the lots cover every sale
+        step_ = rng.choice([3, 4, 4, 5])
+        for k in range(rng.randint(2, 5)):
+            amt = ramt(rng)
+            rows.append(["IN", 0, t + (2 * k + 1) * 3600 * 10**6, 0, "BUY", ai, rprice(rng), amt, None, None, None])
+            rows.append(["OUT", 0, t + (2 * k + 2) * 3600 * 10**6, 0, "SELL", ai, rprice(rng), amt + step_, 0, None, None, None])
     if prop == "C17":
         # distinct instants (the property's proviso), told apart by whole seconds or by microseconds ...
         step = rng.choice([1, 1000, 10**6, 10**6])
